@@ -292,16 +292,20 @@ def native_attr(engine, run, obj, attr):
     return _MISSING
 
 
+def _is_bool_dtype(dtype):
+    return (isinstance(dtype, SOpaque) and dtype.tag == "dtype:bool") or (isinstance(dtype, SNative) and dtype.name == "bool")
+
+
 def cell_astype(run, cell, dtype):
     if cell.kind == "bool":
-        if isinstance(dtype, SOpaque) and dtype.tag == "dtype:bool":
+        if _is_bool_dtype(dtype):
             return SCell(cell.v, cell.space, "bool")
         # bool -> float: True ↦ 1.0, False ↦ 0.0
         v = cell.v
         if isinstance(v, bool):
             return SCell(Fraction(1) if v else Fraction(0), cell.space)
         return SCell(z3.If(v, z3.RealVal(1), z3.RealVal(0)), cell.space)
-    if isinstance(dtype, SOpaque) and dtype.tag == "dtype:bool":
+    if _is_bool_dtype(dtype):
         return SCell(to_real(cell.v) != 0, cell.space, "bool")
     return SCell(cell.v, cell.space, cell.kind)
 
